@@ -1,3 +1,4 @@
+import copy
 from abc import ABCMeta, abstractmethod
 from collections import namedtuple
 from typing import Any, Callable, Dict, List, Type
@@ -173,7 +174,13 @@ class CollectionAttrMutator(metaclass=ABCMeta):
             self.collection = self._create_collection()
             self.add_items(items)
             return self
-        if self.collection and self.prepare_item:
+        if self.collection and (
+            self.attr_spec.prepare_item or self.attr_spec.item_spec_key_type
+        ):
+            # Items may be rewritten by the preparer / key promotion: do that on
+            # a copy of the container, so that the object handed in by the
+            # caller is left untouched.
+            self.collection = copy.copy(self.collection)
             self._prepare_items()
         return self
 
